@@ -75,6 +75,7 @@ class Contract:
         hints=(),
         call_ensures=None,
         call_default=False,
+        call_variants=None,
     ):
         self.func = func
         self.key = func + (f"#{variant}" if variant else "")
@@ -98,6 +99,9 @@ class Contract:
         self.kwargs = kwargs  # for **kwargs functions: {"known": {...}, "open": bool}
         self.ghost_pre = ghost_pre
         self.no_raise = no_raise
+        # {callee func: [(variant, {ghost name: expression in the caller's scope}), ...]}: the i-th call of that
+        # callee inside this function is checked against the named variant with these ghost instantiations
+        self.call_variants = dict(call_variants or {})
         self.call_default = call_default  # among variants, the contract used at call sites
         self.call_ensures = call_ensures  # what callers may assume instead of ``ensures`` (an abstraction of it)
         self.hints = list(hints)  # instances of trusted builtin-model facts, assumed (listed in evidence)
@@ -136,7 +140,10 @@ class ContractDB:
         return c
 
     def get(self, key):
-        return self.contracts.get(key) or self.by_func.get(key)
+        b = self.by_func.get(key)
+        if b is not None and b.call_default:
+            return b  # the designated call-site view of a function that has several contracts
+        return self.contracts.get(key) or b
 
     def is_inline(self, key):
         if key.startswith(self.spec_module + ":"):
@@ -365,6 +372,77 @@ def _sb_cut_at(ex, st, args, kwargs):
                                            z3.SubString(s, z3.Length(a) + 1, z3.Length(s) - z3.Length(a) - 1) == b)))
 
 
+def _sb_int_of_digits(ex, st, args, kwargs):
+    """int_of_digits(d): d consists of ASCII digits  =>  int(d) succeeds with the positional value of d
+    (and int()'s whitespace skipping leaves d unchanged).   [trusted fact about int()]"""
+    (d,) = args
+    t = bm.sstr(d)
+    c = bm.strip_term(t, "int")
+    yield st, SV("bool", z3.Implies(z3.InRe(t, bm.RE_DIGITS),
+                                    z3.And(c == t, bm.PY_INT_OK(c), bm.PY_INT_VAL(c) == z3.StrToInt(t))))
+
+
+def _sb_substr_at(ex, st, args, kwargs):
+    """substr_at(s, a, tok, b): s == a + tok + b  =>  s[len(a):len(a)+len(tok)] == tok, and the characters of
+    tok sit at positions len(a).. of s.   [fact about concatenation and slicing]"""
+    s, a, tok, b = args
+    S = bm.sstr(s)
+    whole = bm.sstr(bm.str_concat([a, tok, b]))
+    A, T = bm.sstr(a), bm.sstr(tok)
+    yield st, SV("bool", z3.Implies(S == whole, z3.And(z3.SubString(S, z3.Length(A), z3.Length(T)) == T,
+                                                       z3.Length(S) == z3.Length(A) + z3.Length(T) + z3.Length(bm.sstr(b)))))
+
+
+def _sb_py_int(ex, st, args, kwargs):
+    """py_int(s): the value int(s) returns when it succeeds (uninterpreted outside ASCII numerals)."""
+    (v,) = args
+    if not is_sym(v):
+        yield st, int(v)
+    else:
+        yield st, SV("int", bm.PY_INT_VAL(bm.strip_term(v.t, "int")))
+
+
+def _sb_py_int_ok(ex, st, args, kwargs):
+    (v,) = args
+    if not is_sym(v):
+        try:
+            int(v)
+            yield st, True
+        except ValueError:
+            yield st, False
+    else:
+        c = bm.strip_term(v.t, "int")
+        bm.axiom(z3.Implies(z3.InRe(c, bm.RE_SIGNED), bm.PY_INT_OK(c)))
+        yield st, SV("bool", bm.PY_INT_OK(c))
+
+
+def _sb_nat_shift(ex, st, args, kwargs):
+    """nat_shift(d, z): for a digit string d, the numeral d followed by z zeros denotes nat(d) * 10**z."""
+    d, zc = args
+    if is_sym(zc) or not (0 <= zc <= 12):
+        raise Unsupported("nat_shift needs a literal shift 0..12")
+    t = bm.sstr(d)
+    shifted = bm.sstr(bm.str_concat([d, "0" * zc]))
+    yield st, SV("bool", z3.Implies(z3.InRe(t, bm.RE_DIGITS),
+                                    z3.And(z3.InRe(shifted, bm.RE_DIGITS), z3.StrToInt(shifted) == z3.StrToInt(t) * (10 ** zc))))
+
+
+def _sb_char_at(ex, st, args, kwargs):
+    """char_at(s, a, c, b): s == a + c + b with c a single character  =>  s[len(a)] is c."""
+    s, a, c, b = args
+    S, A, C = bm.sstr(s), bm.sstr(a), bm.sstr(c)
+    whole = bm.sstr(bm.str_concat([a, c, b]))
+    yield st, SV("bool", z3.Implies(z3.And(S == whole, z3.Length(C) == 1), z3.SubString(S, z3.Length(A), 1) == C))
+
+
+def _sb_head_of(ex, st, args, kwargs):
+    """head_of(a, rest): a is non-empty  =>  (a + rest)[0] is a[0]."""
+    a, rest = args
+    A = bm.sstr(a)
+    S = bm.sstr(bm.str_concat([a, rest]))
+    yield st, SV("bool", z3.Implies(z3.Length(A) > 0, z3.And(z3.SubString(S, 0, 1) == z3.SubString(A, 0, 1), z3.Length(S) > 0)))
+
+
 def _sb_excludes(ex, st, args, kwargs):
     """excludes(v, pattern, ch): no string of L(pattern) contains ch (decided on the regex)  =>  ch not in v."""
     from .regex import alphabet_excludes, to_z3
@@ -508,7 +586,7 @@ def _sb_py_int_strip(ex, st, args, kwargs):
     yield st, (SV("str", bm.strip_term(bm.sstr(s), "int")) if is_sym(s) else s.strip(" \t\n\x0b\x0c\r"))
 
 
-SPEC_BUILTINS = {"strip_core": _sb_strip_core, "cut_at": _sb_cut_at, "excludes": _sb_excludes, "int_padded": _sb_int_padded, "py_int_strip": _sb_py_int_strip, "py_repr": _sb_py_repr, "loops_exhausted": _sb_loops_exhausted, "call_kwarg": _sb_call_kwarg, "some": _sb_some, "index_at": _sb_index_at, "strip_blank": _sb_strip_blank, "pos_of": _sb_pos_of, "call_arg": _sb_call_arg, "unmodified": _sb_unmodified, "uf": _sb_uf, "called": _sb_called, "py_isalpha": _sb_py_isalpha, "py_isdigit": _sb_py_isdigit, "int_of_signed": _sb_int_of_signed, "strip_padded": _sb_strip_padded, "strip_unique": _sb_strip_unique, "py_strip": _sb_py_strip, "pad": _sb_pad, "matches": _sb_matches, "nat": _sb_nat, "key_at": _sb_key_at, "val_at": _sb_val_at,
+SPEC_BUILTINS = {"head_of": _sb_head_of, "py_int": _sb_py_int, "py_int_ok": _sb_py_int_ok, "nat_shift": _sb_nat_shift, "char_at": _sb_char_at, "int_of_digits": _sb_int_of_digits, "substr_at": _sb_substr_at, "strip_core": _sb_strip_core, "cut_at": _sb_cut_at, "excludes": _sb_excludes, "int_padded": _sb_int_padded, "py_int_strip": _sb_py_int_strip, "py_repr": _sb_py_repr, "loops_exhausted": _sb_loops_exhausted, "call_kwarg": _sb_call_kwarg, "some": _sb_some, "index_at": _sb_index_at, "strip_blank": _sb_strip_blank, "pos_of": _sb_pos_of, "call_arg": _sb_call_arg, "unmodified": _sb_unmodified, "uf": _sb_uf, "called": _sb_called, "py_isalpha": _sb_py_isalpha, "py_isdigit": _sb_py_isdigit, "int_of_signed": _sb_int_of_signed, "strip_padded": _sb_strip_padded, "strip_unique": _sb_strip_unique, "py_strip": _sb_py_strip, "pad": _sb_pad, "matches": _sb_matches, "nat": _sb_nat, "key_at": _sb_key_at, "val_at": _sb_val_at,
                  "same_dict": _sb_same_dict}
 
 
@@ -706,7 +784,12 @@ def _sf_implies(ex, st, node):
             if not ba:
                 yield st2, True
             else:
-                yield from ex.ev(b, st2)
+                try:
+                    yield from ex.ev(b, st2)
+                except Unsupported:
+                    # the consequent cannot be evaluated: harmless if the antecedent is impossible here
+                    if ex.feasible(st2.pc) and ex.feasible(st2.pc, deep=True):
+                        raise
 
 
 def _quant(is_forall):
@@ -1112,12 +1195,32 @@ def _cut_for(ex, node, st, it):
 # call by contract
 # ---------------------------------------------------------------------------
 def apply_contract(ex: Exec, st: State, f: FuncRef, node, c: Contract, args, kwargs):
+    ghost_bind = {}
+    cur = ex.cur_contract
+    if cur is not None and c.func in cur.call_variants:
+        counts = dict(st.ghost.get("call_counts", {}))
+        k = counts.get(c.func, 0)
+        plan = cur.call_variants[c.func]
+        if k < len(plan):
+            variant, ghosts = plan[k]
+            c2 = ex.db.contracts.get(f"{c.func}#{variant}")
+            if c2 is None:
+                raise Unsupported(f"call_variants: no contract {c.func}#{variant}")
+            c = c2
+            scope = {**getattr(ex, "cur_env", {}), **st.fr.env}
+            ghost_bind = {g: eval_term(ex, st, expr, scope) for g, expr in ghosts.items()}
+        counts[c.func] = k + 1
+        st.ghost = {**st.ghost, "call_counts": counts}
     decos = [ast.unparse(d) for d in node.decorator_list]
     bound = None if "staticmethod" in decos else f.bound
     env = ex.bind_params(st, node, args, kwargs, bound)
     if env is None:
         yield ex.raise_(st, "TypeError")
         return
+    env.update(ghost_bind)
+    missing = [g for g in c.ghost if g not in env]
+    if missing:
+        raise Unsupported(f"contract {c.key} used at a call site without instantiating its ghost parameters {missing}")
     caller = ex.cur_name
     st.trace.append(("call", c.qualname, None, tuple(env.get(a.arg) for a in node.args.posonlyargs + node.args.args), ()))
     # pre-conditions are obligations of the caller
@@ -1125,6 +1228,8 @@ def apply_contract(ex: Exec, st: State, f: FuncRef, node, c: Contract, args, kwa
         t = eval_spec(ex, st, r, env, what=f"{c.key}.requires[{i}]")
         ex.oblige(st, f"{caller}.call[{c.qualname}].pre{i}", "call-pre", t, info={"clause": r, "callee": c.key})
         st.assume(t)
+    for h in c.hints:
+        st.assume(eval_spec(ex, st, h, env, what="hint"))
     # snapshot for old(), then havoc what the callee may modify
     saved_old = st.old
     st.old = ({a: o.clone() for a, o in st.heap.items()}, dict(env))
@@ -1305,6 +1410,7 @@ def verify_function(db: ContractDB, c: Contract, case=None) -> FunctionResult:
         env = {**ghost_env, **env}
         res.param_values = dict(env)
         res.ghost_names = sorted(ghost_env)
+        ex.cur_env = dict(env)
         for r in c.requires + (list(case[1]) if case else []):
             st.assume(eval_spec(ex, st, r, env, what="requires"))
         if c.ghost_pre:
